@@ -106,6 +106,28 @@ def _call(g, e, seed):
     """One call of generator ``g`` with effective arguments ``e`` (JSON dict) and ``seed`` (int or None)."""
     from toqito import rand as R
 
+    if seed is not None and int(seed) % 2 == 1:
+        # odd seeds: every argument positionally, in the documented order (the two calling forms are the same call; a
+        # reordered signature - seeded change C19-a3 - is invisible to keyword-only calls).  Decided by the seed, so a
+        # repeated call with the same seed uses the same form.
+        if g == "unitary":
+            return R.random_unitary([e["d"], e["d"]] if e["list"] else e["d"], e["real"], seed)
+        if g == "density":
+            return R.random_density_matrix(e["d"], e["real"], e["k"], e["metric"], seed)
+        if g == "psd":
+            return R.random_psd_operator(e["d"], e["real"], seed)
+        if g == "basis":
+            return R.random_orthonormal_basis(e["d"], e["real"], seed)
+        if g == "state_vector":
+            return R.random_state_vector(list(e["dim"]) if isinstance(e["dim"], list) else e["dim"], e["real"], 0 if e["k"] is None else e["k"], seed)
+        if g == "povm":
+            return R.random_povm(e["d"], e["nin"], e["nout"], seed)
+        if g == "ginibre":
+            return R.random_ginibre(e["n"], e["m"], seed)
+        if g == "states":
+            return R.random_states(e["n"], e["d"], seed)
+        if g == "circulant":
+            return R.random_circulant_gram_matrix(e["d"], seed)
     if g == "unitary":
         dim = [e["d"], e["d"]] if e["list"] else e["d"]
         return R.random_unitary(dim, e["real"], seed=seed)
